@@ -244,7 +244,7 @@ def run_functab(ctx):
     """Every proximal the functional classes produce (incl. derived forms) and their convex conjugates'."""
     rng = ctx.rng('functab')
     crng = ctx.crng('functab-ctor')
-    for i, (fname, sname, sp, thunk, tags) in enumerate(functab.all_functionals(crng, ctx.thorough)):
+    for i, (fname, sname, sp, thunk, tags) in enumerate(functab.all_functionals(crng, ctx.thorough, with_complex=True)):
         if not ctx.mine(i) or 'noprox' in tags:
             continue
         if sname in ('rn5aw',) and 'Huber' in fname:
